@@ -1,10 +1,16 @@
 import OvniModel.Emu.Prv
+import OvniModel.Lemmas.EmuCoreTotal
 
 /-!
 # C13 — Paraver output is well-formed and self-consistent
 
 Model: `Emu/Prv.lean` (prv.c / prf.c) on top of the record generation of
 `Emu/View.lean`.
+
+`records_values_labelled_ovni`: every thread-state record an accepted OH* / OA* step writes to
+thread.prv carries the code of the (new) state of the row's thread — one of the six values
+labelled by `state_name[]` in thread.c — and every CPU-affinity record carries 0 (nothing) or
+`gindex + 1` of an existing CPU, the value `cpu_add_to_pcf_type` labels.
 -/
 set_option linter.unusedSimpArgs false
 namespace Ovni.Props.C13
@@ -239,6 +245,186 @@ theorem thread_state_codes :
     [ThState.unknown, .running, .paused, .dead, .cooling, .warming].map ThState.code = [0, 1, 2, 3, 4, 5] := by
   decide
 
+/-! ### Values of the thread-state and CPU-affinity records of the ovni model -/
+
+/-- no channel of the group uses the Paraver types of the thread state / the CPU affinity -/
+def typesDisjoint (m : ModelSpec) : Bool :=
+  m.pvtType.all fun ty => ty != prvThreadState && ty != prvThreadCpu
+
+/-- none of the eight models does (regenerated specs) -/
+theorem allSpecs_types_disjoint : ∀ m ∈ allSpecs, typesDisjoint m = true := by decide
+
+theorem getD_type_ne {m : ModelSpec} (h : typesDisjoint m = true) (i : Nat) :
+    m.pvtType.getD i 0 ≠ prvThreadState ∧ m.pvtType.getD i 0 ≠ prvThreadCpu := by
+  rw [List.getD_eq_getElem?_getD]
+  cases hg : m.pvtType[i]? with
+  | none => exact ⟨by decide, by decide⟩
+  | some ty =>
+    unfold typesDisjoint at h
+    rw [List.all_eq_true] at h
+    have := h ty (List.mem_of_getElem? hg)
+    simp only [Bool.and_eq_true, bne_iff_ne, ne_eq] at this
+    exact this
+
+theorem emitRaw_mem_val (file row type flags : Nat) (c : Chan) (l : List PrvRec)
+    (h : emitRaw file row type flags c = .ok l) (r : PrvRec) (hr : r ∈ l) :
+    prvValue flags c.cur = .ok r.value := by
+  unfold emitRaw at h
+  split at h
+  · cases hv : prvValue flags c.cur with
+    | error e => simp [hv, bind, Except.bind] at h
+    | ok v =>
+      simp [hv, bind, Except.bind, pure, Except.pure] at h
+      subst h
+      simp at hr; subst hr; rfl
+  · simp [pure, Except.pure] at h; subst h; cases hr
+
+theorem prvValue_stateVal (s : ThState) : prvValue prvSkipDup (stateVal s) = .ok s.code := by
+  cases s <;> rfl
+
+theorem prvValue_cpuVal_some (ci : Nat) : prvValue prvNext (cpuVal (some ci)) = .ok ((ci : Int) + 1) := by
+  unfold cpuVal prvValue
+  have : ¬ ((ci : Int) + 1 = 0) := by omega
+  simp [prvNext, prvZero, this]
+
+/-- **Labelled values (general form).**  Whenever the flushed successor state is well-formed and no
+    channel group reuses the types 4 / 6, every record of `records old new` in thread.prv of type
+    `prvThreadState` carries the code of the state of the thread of its row, and every record of
+    type `prvThreadCpu` carries 0 when that thread has no CPU and otherwise `gindex + 1` of the
+    (existing) CPU it is bound to. -/
+theorem records_values_labelled_wf (old : Emu) {new : Emu} (hw : WF new.flushAll)
+    (hx : ∀ m ∈ new.extra, typesDisjoint m = true) {out : List PrvRec} (h : records old new = .ok out)
+    {r : PrvRec} (hr : r ∈ out) (hf : r.file = 0) :
+    (r.type = prvThreadState →
+      ∃ t ∈ new.flushAll.threads, r.row = t.gindex + 1 ∧ r.value = t.state.code) ∧
+    (r.type = prvThreadCpu →
+      ∃ t ∈ new.flushAll.threads, r.row = t.gindex + 1 ∧
+        ((t.cpu = none ∧ r.value = 0) ∨
+          ∃ c ∈ new.flushAll.cpus, t.cpu = some c.gindex ∧ r.value = (c.gindex : Int) + 1)) := by
+  have hdis : ∀ m ∈ allSpecs.filter (fun s => new.enabled.contains s.char) ++ new.extra,
+      typesDisjoint m = true := by
+    intro m hm
+    rcases List.mem_append.1 hm with h1 | h1
+    · exact allSpecs_types_disjoint m (List.mem_filter.1 h1).1
+    · exact hx m h1
+  unfold records at h
+  obtain ⟨x, hx', l, hl, hm⟩ := collect_mem _ out h r hr
+  rcases List.mem_append.1 hx' with hx' | hx'
+  · obtain ⟨t, ht, rfl⟩ := List.mem_map.1 hx'
+    obtain ⟨hcs, _, hcc⟩ := wf_flush_thread hw ht
+    have htf : t.flush ∈ new.flushAll.threads := by
+      rw [Emu.flushAll_eq]; exact List.mem_map.2 ⟨t, ht, rfl⟩
+    unfold threadRecords at hl
+    obtain ⟨y, hy, l2, hl2, hm2⟩ := collect_mem _ l hl r hm
+    rcases List.mem_append.1 hy with hy | hy
+    · simp only [List.mem_cons, List.mem_nil_iff, or_false] at hy
+      rcases hy with rfl | rfl | rfl
+      · -- the CPU-affinity channel
+        obtain ⟨_, b, c⟩ := emitRaw_mem _ _ _ _ _ l2 hl2 r hm2
+        have hval := emitRaw_mem_val _ _ _ _ _ l2 hl2 r hm2
+        refine ⟨fun h4 => absurd (c.symm.trans h4) (by decide), fun _ => ⟨t.flush, htf, b, ?_⟩⟩
+        rw [hcc] at hval
+        cases hcpu : t.cpu with
+        | none =>
+          rw [hcpu] at hval
+          have : (Except.ok 0 : Except Err Int) = .ok r.value := hval
+          exact Or.inl ⟨hcpu, by injection this with this; exact this.symm⟩
+        | some ci =>
+          rw [hcpu, prvValue_cpuVal_some] at hval
+          obtain ⟨i, hi⟩ := List.mem_iff_getElem?.mp htf
+          have hth := hw.th i _ hi
+          have hlt := hth.cpuLt ci hcpu
+          have hc := hw.cpu ci _ (List.getElem?_eq_getElem hlt)
+          refine Or.inr ⟨new.flushAll.cpus[ci], List.getElem_mem hlt, ?_, ?_⟩
+          · show t.cpu = _
+            rw [hc.gidx]; exact hcpu
+          · rw [hc.gidx]; injection hval with hval; exact hval.symm
+      · -- the TID channel: another type
+        obtain ⟨_, _, c⟩ := emitRaw_mem _ _ _ _ _ l2 hl2 r hm2
+        exact ⟨fun h4 => absurd (c.symm.trans h4) (by decide), fun h6 => absurd (c.symm.trans h6) (by decide)⟩
+      · -- the state channel
+        obtain ⟨_, b, c⟩ := emitRaw_mem _ _ _ _ _ l2 hl2 r hm2
+        have hval := emitRaw_mem_val _ _ _ _ _ l2 hl2 r hm2
+        refine ⟨fun _ => ⟨t.flush, htf, b, ?_⟩, fun h6 => absurd (c.symm.trans h6) (by decide)⟩
+        rw [hcs, prvValue_stateVal] at hval
+        injection hval with hval
+        exact hval.symm
+    · -- a model view: its type is neither 4 nor 6
+      obtain ⟨m, hmem, hy2⟩ := List.mem_flatMap.1 hy
+      obtain ⟨i, _, rfl⟩ := List.mem_map.1 hy2
+      obtain ⟨_, _, c⟩ := emitView_mem _ _ _ _ _ _ l2 hl2 r hm2
+      obtain ⟨n4, n6⟩ := getD_type_ne (hdis m hmem) i
+      exact ⟨fun h4 => absurd (c.symm.trans h4) n4, fun h6 => absurd (c.symm.trans h6) n6⟩
+  · -- a CPU row: file 1
+    obtain ⟨c, _, rfl⟩ := List.mem_map.1 hx'
+    unfold cpuRecords at hl
+    obtain ⟨y, hy, l2, hl2, hm2⟩ := collect_mem _ l hl r hm
+    have hfile : r.file = 1 := by
+      rcases List.mem_append.1 hy with hy | hy
+      · simp only [List.mem_cons, List.mem_nil_iff, or_false] at hy
+        rcases hy with rfl | rfl | rfl <;> exact (emitRaw_mem _ _ _ _ _ l2 hl2 r hm2).1
+      · obtain ⟨m, _, hy2⟩ := List.mem_flatMap.1 hy
+        obtain ⟨i, _, rfl⟩ := List.mem_map.1 hy2
+        exact (emitView_mem _ _ _ _ _ _ l2 hl2 r hm2).1
+    rw [hf] at hfile; cases hfile
+
+/-- **`emit`'s zero rule is the only failure of the record emission**: `records` fails only with
+    "forbidden value 0" — an integer 0 (after PRV_NEXT) on a type without PRV_ZERO; under
+    `NoZeroIds` and for the events of the ovni model it does not fail at all
+    (`records_total_of_wf`, C04 `records_total`, C05 `records_total_affinity`). -/
+theorem records_error_only_zero {old new : Emu} {err : Err} (h : records old new = .error err) :
+    err = .prvZero := records_error h
+
+section
+variable (th mh : Emu → Nat → Nat → Nat → List Nat → Except Err Emu)
+
+/-- **Every thread-state and CPU-affinity value the ovni model prints has a label.**  For every
+    accepted step (`stepEv`) of a thread event OH{x,c,p,w,r,e} or an affinity event OAs / OAr from a
+    well-formed state, every record written to thread.prv with type `prvThreadState` carries the code
+    of the state the thread of that row is in after the step — one of the six codes 0 … 5 labelled
+    by `state_name[]` (`thread_state_codes`) — and every record with type `prvThreadCpu` carries 0
+    (the thread has no CPU any more) or `gindex + 1` of the CPU of the new state the thread is bound
+    to, which exists: exactly the value `cpu_add_to_pcf_type` labels for that CPU. -/
+theorem records_values_labelled_ovni {e e' : Emu} (h : WF e) (hen : e.enabled.contains 79 = true)
+    (hx : ∀ m ∈ e.extra, typesDisjoint m = true) {ev : OEv} (hk : IsThreadEv ev ∨ IsAffinityEv ev)
+    {rs : List PrvRec} (hs : stepEv e ev.1 79 ev.2.1 ev.2.2.1 ev.2.2.2 th mh = .ok (e', rs))
+    {r : PrvRec} (hr : r ∈ rs) (hf : r.file = 0) :
+    (r.type = prvThreadState →
+      ∃ t ∈ e'.threads, r.row = t.gindex + 1 ∧ r.value = t.state.code ∧
+        r.value ∈ [ThState.unknown, .running, .paused, .dead, .cooling, .warming].map (fun s => (s.code : Int))) ∧
+    (r.type = prvThreadCpu →
+      ∃ t ∈ e'.threads, r.row = t.gindex + 1 ∧
+        ((t.cpu = none ∧ r.value = 0) ∨
+          ∃ c ∈ e'.cpus, t.cpu = some c.gindex ∧ r.value = (c.gindex : Int) + 1)) := by
+  obtain ⟨e1, hm, hrec, rfl⟩ := (stepEv_ok_iff th mh e ev e' rs).mp hs
+  obtain ⟨tj, x, hso⟩ := emuStep_sound th mh h hen hk (stepEv_emuStep th mh hs)
+  have hx1 : ∀ m ∈ e1.extra, typesDisjoint m = true := by
+    have : e1.extra = e.extra := hso.static.extra
+    rw [this]; exact hx
+  obtain ⟨a, b⟩ := records_values_labelled_wf e hso.wf hx1 hrec hr hf
+  refine ⟨fun h4 => ?_, b⟩
+  obtain ⟨t, ht, h1, h2⟩ := a h4
+  refine ⟨t, ht, h1, h2, ?_⟩
+  rw [h2]
+  cases t.state <;> decide
+
+/-- The OH* case with the event spelled out. -/
+theorem records_values_labelled_OH {e e' : Emu} (h : WF e) (hen : e.enabled.contains 79 = true)
+    (hx : ∀ m ∈ e.extra, typesDisjoint m = true) {ti v : Nat} (hv : v ∈ [120, 99, 112, 119, 114, 101])
+    {payload : List Nat} {rs : List PrvRec} (hs : stepEv e ti 79 72 v payload th mh = .ok (e', rs))
+    {r : PrvRec} (hr : r ∈ rs) (hf : r.file = 0) :
+    (r.type = prvThreadState → ∃ t ∈ e'.threads, r.row = t.gindex + 1 ∧ r.value = t.state.code) ∧
+    (r.type = prvThreadCpu → r.value = 0 ∨ ∃ c ∈ e'.cpus, r.value = (c.gindex : Int) + 1) := by
+  obtain ⟨a, b⟩ := records_values_labelled_ovni th mh h hen hx (ev := (ti, 72, v, payload))
+    (Or.inl ⟨rfl, hv⟩) hs hr hf
+  refine ⟨fun h4 => ?_, fun h6 => ?_⟩
+  · obtain ⟨t, ht, h1, h2, _⟩ := a h4; exact ⟨t, ht, h1, h2⟩
+  · obtain ⟨t, _, _, h2⟩ := b h6
+    rcases h2 with ⟨_, h0⟩ | ⟨c, hc, _, hv'⟩
+    · exact Or.inl h0
+    · exact Or.inr ⟨c, hc, hv'⟩
+end
+
 /-- **.row file**: as many names as rows, one per thread / CPU in gindex order. -/
 theorem row_file_complete (labels : List String) :
     (rowFile labels).1 = labels.length ∧ (rowFile labels).2 = labels := ⟨rfl, rfl⟩
@@ -248,5 +434,17 @@ theorem row_file_complete (labels : List String) :
 example : Mono ({ nrows := 2 } : PrvFile) := ⟨List.Pairwise.nil, by intro l hl; cases hl⟩
 example : (({ nrows := 2 } : PrvFile).run 0 [(0, [⟨0, 1, 4, 1⟩]), (5, [⟨0, 1, 4, 2⟩, ⟨1, 1, 3, 0⟩]), (5, [])]).toOption.map
     (fun p => (p.header, p.lines)) = some ((5, 2), [(0, 1, 4, 1), (5, 1, 4, 2)]) := by decide
+
+/-- the execute of the only thread of a one-CPU system writes, on thread row 1, CPU 1 = `gindex 0 + 1`
+    (type 6) and state 1 = running (type 4): the hypotheses of `records_values_labelled_ovni` are
+    satisfiable and its conclusions are met with non-zero values -/
+example :
+    ((stepEv (mkEmu [(10, 100, 0)] [(0, 0, false)] [79] false) 0 79 72 120 [0, 0, 0, 0]
+        (fun _ _ _ _ _ => .error .unknownEvent) (fun _ _ _ _ _ => .error .unknownEvent)).toOption.map
+      fun p => p.2.filter (fun r => r.file == 0 && (r.type == prvThreadState || r.type == prvThreadCpu))) =
+    some [⟨0, 1, 6, 1⟩, ⟨0, 1, 4, 1⟩] := by decide
+
+example : ∀ m ∈ (mkEmu [(10, 100, 0)] [(0, 0, false)] [79] false).extra, typesDisjoint m = true := by
+  intro m hm; cases hm
 
 end Ovni.Props.C13
